@@ -112,6 +112,8 @@ class World(object):
                 return [] if pool.op_running(op[1]) else ['SInapplicable']
             if kind == 'stop':
                 return [] if pool.op_stop(op[1]) else ['SInapplicable']
+            if kind == 'stopfail':
+                return [] if pool.op_stopfail(op[1]) else ['SInapplicable']
             if kind == 'finish':
                 self.cur = op[1]
                 self.recording = True
@@ -215,6 +217,8 @@ def op_term(world, op):
         return '(SProc %d PRunning)' % op[1]
     if k == 'stop':
         return '(SProc %d PStop)' % op[1]
+    if k == 'stopfail':
+        return '(SProc %d PStopFail)' % op[1]
     if k == 'finish':
         return '(SProc %d (PFinish %s %s %s))' % (op[1], bytes_lit(bytes(op[2])), w_term(op[3]), blit(op[4]))
     if k == 'dispatch':
